@@ -53,7 +53,8 @@ class Gen:
         if k == "loc" and self.locals:
             return self.r.choice(list(self.locals))
         if k == "reg":
-            return self.r.choice(SRC_REGS * 3 + SRC_PAIRS + PRED_SRC + RW_REGS)
+            pm = getattr(self, "pair_mode", False)
+            return self.r.choice((["RssV", "RttV"] * 3 + ["RuV", "RvV"] + PRED_SRC + RW_PAIRS) if pm else (SRC_REGS * 3 + PRED_SRC + RW_REGS))
         if k == "imm":
             return self.r.choice(IMMS)
         if k == "special":
@@ -93,7 +94,8 @@ class Gen:
         r = self.r
         c = r.random()
         if c < 0.4:
-            tgt = r.choice(list(self.locals) + RW_REGS) if self.locals else r.choice(RW_REGS)
+            rw = RW_PAIRS if getattr(self, "pair_mode", False) else RW_REGS
+            tgt = r.choice(list(self.locals) + rw) if self.locals else r.choice(rw)
             return f"{tgt}{r.choice(['++', '--'])}"
         if c < 0.8:
             f, _ = r.choice(SUBS_1)
@@ -116,12 +118,11 @@ class Gen:
     def dest(self):
         r = self.r
         c = r.random()
-        if c < 0.35:
-            return r.choice(DST_REGS)
+        pm = getattr(self, "pair_mode", False)
         if c < 0.45:
-            return r.choice(DST_PAIRS)
+            return r.choice(DST_PAIRS) if pm else r.choice(DST_REGS)
         if c < 0.6:
-            return r.choice(RW_REGS + RW_PAIRS)
+            return r.choice(RW_PAIRS) if pm else r.choice(RW_REGS)
         if c < 0.7:
             return r.choice(PRED_DST + ["P0", "P1"])
         if self.locals and c < 0.95:
@@ -174,6 +175,7 @@ class Gen:
 
     def program(self, nstmts=None, depth=2, hybrids=0.0):
         self.locals = {}
+        self.pair_mode = self.r.random() < 0.3   # an instruction never names Rd and Rdd (same operand letter) together
         n = nstmts or self.r.randint(1, 5)
         return "{ " + " ".join(self.stmt(depth, hybrids) for _ in range(n)) + " }"
 
